@@ -550,6 +550,23 @@ theorem slotInv_fresh (x : Slot) (o : Nat) (hx : x.sess = some { opts := o }) : 
 theorem winv_replicate (n : Nat) : ∀ x ∈ List.replicate n ({} : Slot), SlotInv x := by
   intro x hx; rw [(List.mem_replicate.mp hx).2]; exact slotInv_default
 
+theorem dropGone_inv (ks : List Nat) : ∀ w : World, WInv w → WInv (dropGone ks w) := by
+  induction ks with
+  | nil => intro w h; exact h
+  | cons k ks ih =>
+    intro w h
+    unfold dropGone
+    simp only
+    split
+    · exact ih _ (h.setSlot _ _ (by intro s hs; simp at hs))
+    · exact ih _ h
+
+theorem noBad_heard (w : World) (k : Nat) {evs : List Ev} (h : noBad evs) : noBad (heard w k evs) := by
+  unfold heard
+  split
+  · exact noBad_filter _ h
+  · exact h
+
 theorem step_safe (w : World) (op : Op) (h : WInv w) :
     ∀ r, step Cfg.fixed w op = some r → WInv r.1 ∧ noBad r.2 := by
   intro r hr
@@ -577,7 +594,8 @@ theorem step_safe (w : World) (op : Op) (h : WInv w) :
     · simp at hr
   | pass =>
     simp only [step] at hr; cases hr
-    have := doPass_safe w h
+    have h' : WInv { dropGone w.gone w with gone := [] } := dropGone_inv _ _ h
+    have := doPass_safe _ h'
     exact ⟨this.1, noBad_append this.2 (noBad_opLine _)⟩
   | teardown =>
     simp only [step] at hr; cases hr
@@ -622,7 +640,7 @@ theorem step_safe (w : World) (op : Op) (h : WInv w) :
         · cases hr; exact ⟨h, noBad_opLine _⟩
         · cases hr
           have := deliver_safe w 6 ((w.slot k).pending ++ bs) h
-          exact ⟨this.1, noBad_append this.2 (noBad_opLine _)⟩
+          exact ⟨this.1, noBad_append (noBad_heard _ _ this.2) (noBad_opLine _)⟩
       · cases hr
         have hf := telParse_noBad (((w.slot k).pending ++ bs).length + 1)
           (match (w.slot k).sess with | some s => s.opts | none => 0) ((w.slot k).pending ++ bs)
@@ -630,7 +648,7 @@ theorem step_safe (w : World) (op : Op) (h : WInv w) :
         have hfin := finishSlot_safe w k { w.slot k with pending := (telFeed Cfg.fixed
           (match (w.slot k).sess with | some s => s.opts | none => 0) (w.slot k).pending bs).2.2 } _ _ h
           (fun s hs => h.slot k s hs) ha.1 ha.2
-        exact ⟨hfin.1, noBad_append hfin.2 (noBad_opLine _)⟩
+        exact ⟨hfin.1, noBad_append (noBad_heard _ _ hfin.2) (noBad_opLine _)⟩
     · simp at hr
   | xdisc k =>
     simp only [step] at hr; split at hr
@@ -696,6 +714,14 @@ theorem step_safe (w : World) (op : Op) (h : WInv w) :
     · cases hf : frontStep Cfg.fixed false w.rpc f with
       | none => simp [hf] at hr
       | some x => simp [hf] at hr; cases hr; exact ⟨h, frontStep_noBad _ _ _ _ hf⟩
+  | wfault k m =>
+    simp only [step] at hr; split at hr
+    · cases hr; exact ⟨h, noBad_opLine _⟩
+    · simp at hr
+  | xclose k =>
+    simp only [step] at hr; split at hr
+    · cases hr; exact ⟨h, noBad_opLine _⟩
+    · simp at hr
 
 theorem run_safe (w : World) (ops : List Op) (h : WInv w) : noBad (run Cfg.fixed w ops).2 := by
   induction ops generalizing w with
